@@ -407,6 +407,106 @@ fn run_big(fam: usize, n: usize, out: usize, cont: u8) -> Option<Bad> {
     }
 }
 
+/// 16-bit boundary probe: chains and stars on 2^16 +- 1 nodes with a linear-time oracle (the
+/// matrix-based one is quadratic): every upstream node processed exactly once, inputs first, one
+/// input per incoming edge referring to that neighbour's buffers, output value == number of
+/// upstream nodes weighted as usual; two consecutive calls on one processor.
+const HUGE_KINDS: [&str; 4] = ["chain", "star into node 0", "star out of node 0 (output = last leaf)", "chain, StableGraph with the first node removed"];
+fn huge_graph_case(kind: usize, n: usize) -> Option<Bad> {
+    let tag = format!("{} on {n} nodes", HUGE_KINDS[kind.min(3)]);
+    let log: Rc<RefCell<Vec<Rec>>> = Rc::new(RefCell::new(Vec::new()));
+    let call = Rc::new(RefCell::new(0u32));
+    // expected: (upstream node ids in a valid order constraint, in-neighbours per node)
+    let preds = |x: usize| -> Vec<usize> {
+        match kind {
+            0 | 3 => if x > 0 { vec![x - 1] } else { vec![] },
+            1 => if x == 0 { (1..n).collect() } else { vec![] },
+            _ => if x > 0 { vec![0] } else { vec![] },
+        }
+    };
+    let out = match kind {
+        1 => 0,
+        _ => n - 1,
+    };
+    let upstream: Vec<usize> = match kind {
+        0 | 3 => (0..n).collect(),
+        1 => (0..n).collect(),
+        _ => vec![0, n - 1],
+    };
+    let run = |process: &mut dyn FnMut() -> Result<(), String>, ptr_of: &dyn Fn(usize) -> (usize, usize), out_val: &dyn Fn() -> f32| -> Option<Bad> {
+        for c in 1..=2u32 {
+            *call.borrow_mut() = c;
+            log.borrow_mut().clear();
+            if let Err(p) = process() {
+                return Some(("graph.panic".into(), format!("{tag}: call {c} panicked: {p}")));
+            }
+            let lg = log.borrow();
+            if lg.len() != upstream.len() {
+                return Some(("graph.visit".into(), format!("{tag}: call {c} processed {} nodes, expected the {} upstream nodes once each", lg.len(), upstream.len())));
+            }
+            let mut done = vec![false; n];
+            let by_ptr: std::collections::HashMap<usize, usize> = upstream.iter().map(|&x| (ptr_of(x).0, x)).collect();
+            for r in lg.iter() {
+                let x = r.node;
+                if x >= n || done[x] || (kind >= 2 && !upstream.contains(&x)) {
+                    return Some(("graph.visit".into(), format!("{tag}: call {c}: node {x} processed twice or not upstream")));
+                }
+                let mut got: Vec<usize> = Vec::new();
+                for &(p, l, _, _) in &r.inputs {
+                    match by_ptr.get(&p) {
+                        Some(&m) if ptr_of(m).1 == l && m != x => got.push(m),
+                        _ => return Some(("graph.inputs".into(), format!("{tag}: call {c}: node {x} received an input that is not an upstream neighbour's buffer slice"))),
+                    }
+                }
+                got.sort();
+                let want = preds(x);
+                if got != want {
+                    return Some(("graph.inputs".into(), format!("{tag}: call {c}: node {x} received {} inputs, expected one per incoming edge ({} edges)", got.len(), want.len())));
+                }
+                if want.iter().any(|&m| !done[m]) {
+                    return Some(("graph.order".into(), format!("{tag}: call {c}: node {x} processed before a node that feeds it")));
+                }
+                done[x] = true;
+            }
+            let exp: f64 = upstream.iter().map(|&x| weight(x) as f64).sum::<f64>();
+            let exp = if kind == 1 || kind == 0 || kind == 3 { exp } else { weight(0) as f64 + weight(n - 1) as f64 };
+            if exp < 16_777_216.0 && out_val() as f64 != exp {
+                return Some(("graph.value".into(), format!("{tag}: call {c}: output buffer holds {}, functional evaluation gives {exp}", out_val())));
+            }
+        }
+        None
+    };
+    let edges: Vec<(usize, usize)> = match kind {
+        0 | 3 => (0..n - 1).map(|i| (i, i + 1)).collect(),
+        1 => (1..n).map(|i| (i, 0)).collect(),
+        _ => (1..n).map(|i| (0, i)).collect(),
+    };
+    if kind == 3 {
+        let mut g = G2::with_capacity(n + 1, n);
+        let dummy = g.add_node(mk_node(n + 7, &log, &call));
+        let ix: Vec<NodeIndex> = (0..n).map(|i| g.add_node(mk_node(i, &log, &call))).collect();
+        g.add_edge(dummy, ix[0], ());
+        for &(a, b) in &edges {
+            g.add_edge(ix[a], ix[b], ());
+        }
+        g.remove_node(dummy);
+        let g = RefCell::new(g);
+        let mut p = Processor::<G2>::with_capacity(n + 1);
+        let o = ix[out];
+        run(&mut || catch(|| p.process(&mut g.borrow_mut(), o)), &|x| (g.borrow()[ix[x]].buffers.as_ptr() as usize, g.borrow()[ix[x]].buffers.len()), &|| g.borrow()[o].buffers[0][0])
+    } else {
+        let mut g = G1::with_capacity(n, n);
+        let ix: Vec<NodeIndex> = (0..n).map(|i| g.add_node(mk_node(i, &log, &call))).collect();
+        for &(a, b) in &edges {
+            g.add_edge(ix[a], ix[b], ());
+        }
+        let g = RefCell::new(g);
+        let mut p = Processor::<G1>::with_capacity(n);
+        let o = ix[out];
+        run(&mut || catch(|| p.process(&mut g.borrow_mut(), o)), &|x| (g.borrow()[ix[x]].buffers.as_ptr() as usize, g.borrow()[ix[x]].buffers.len()), &|| g.borrow()[o].buffers[0][0])
+    }
+}
+
 /// scale probe: nodes with very many (or no) output buffers: every Input must expose exactly the
 /// neighbour's buffer slice (same address, same length)
 fn bufcount_case(counts: &[usize]) -> Option<(String, String)> {
@@ -451,6 +551,10 @@ fn main() {
             let _guard_scope = guard::scoped(&v.to_string());
             ctx.finish_replay(run_big(g("fam"), g("n"), g("out"), g("cont") as u8).map(|e| format!("{}: {}", e.0, e.1)));
         }
+        if v["sys"] == "hugegraph" {
+            let _guard_scope = guard::scoped(&v.to_string());
+            ctx.finish_replay(huge_graph_case(v["kind"].as_u64().unwrap_or(0) as usize, v["n"].as_u64().unwrap_or(65537) as usize).map(|e| format!("{}: {}", e.0, e.1)));
+        }
         if v["sys"] == "bufcount" {
             let cs: Vec<usize> = v["counts"].as_array().map(|a| a.iter().map(|x| x.as_u64().unwrap_or(0) as usize).collect()).unwrap_or_default();
             let _guard_scope = guard::scoped(&v.to_string());
@@ -464,7 +568,7 @@ fn main() {
         let hist: Vec<Case> = v["history"].as_array().map(|a| a.iter().filter_map(Case::from_json).collect()).unwrap_or_default();
         ctx.finish_replay(run_with_history(&hist, &c));
     }
-    ctx.rule("every directed multigraph on n<=3 nodes with multiplicity 0..2 per ordered pair (self pairs included), every digraph with loops on 4 nodes (thorough: every loop-free digraph on 5 nodes) x every output node x container in {Graph, StableGraph, StableGraph with vacancies before/between/after/all (dummy nodes wired in and removed)} x 2 consecutive process calls (60 for the scale-probe graphs) on a processor reused across a whole chunk of the enumeration (256 graphs x outputs x containers; a violation's replay artefact carries the shortest suffix of that history with which it reproduces on a fresh processor); instrumented nodes log (node, call, own buffer ptr, per input ptr/len/value/call#); oracle: independent reverse reachability, multiset of in-edges by buffer identity, no self-alias, topological order and functional evaluation when the upstream subgraph is acyclic, sources()/sinks() == existing nodes without in/out edges; plus scale probes: nodes with 0, 1, 2, 255, 256, 257 and 1000 output buffers in every combination on a 3-node graph; 12 structured families (chains, stars, rings, complete DAG / digraph, tree, double edges, ...) on 5..=9 nodes; 8 structured families (chain, reversed chain, stars, ring, binary tree, bidirectional chain, chain with a fan-out from node 0) on 33, 64, 255, 256, 257 nodes (thorough: also 31, 32, 100, 300) x output node in {0, 1, n/2, n-2, n-1} x {Graph, StableGraph}, 60 calls each; non-trivial = at least one edge, distinct by (graph, output, container)");
+    ctx.rule("every directed multigraph on n<=3 nodes with multiplicity 0..2 per ordered pair (self pairs included), every digraph with loops on 4 nodes (thorough: every loop-free digraph on 5 nodes) x every output node x container in {Graph, StableGraph, StableGraph with vacancies before/between/after/all (dummy nodes wired in and removed)} x 2 consecutive process calls (60 for the scale-probe graphs) on a processor reused across a whole chunk of the enumeration (256 graphs x outputs x containers; a violation's replay artefact carries the shortest suffix of that history with which it reproduces on a fresh processor); instrumented nodes log (node, call, own buffer ptr, per input ptr/len/value/call#); oracle: independent reverse reachability, multiset of in-edges by buffer identity, no self-alias, topological order and functional evaluation when the upstream subgraph is acyclic, sources()/sinks() == existing nodes without in/out edges; plus scale probes: nodes with 0, 1, 2, 255, 256, 257 and 1000 output buffers in every combination on a 3-node graph; 12 structured families (chains, stars, rings, complete DAG / digraph, tree, double edges, ...) on 5..=9 nodes; 8 structured families (chain, reversed chain, stars, ring, binary tree, bidirectional chain, chain with a fan-out from node 0) on 33, 64, 255, 256, 257 nodes (thorough: also 31, 32, 100, 300) x output node in {0, 1, n/2, n-2, n-1} x {Graph, StableGraph}, 60 calls each; chains and stars on 65535, 65536, 65537 nodes (Graph, and a StableGraph chain with its first slot vacant) under a linear-time form of the same oracle, 2 calls each; non-trivial = at least one edge, distinct by (graph, output, container)");
     // enumerate
     let mut graphs: Vec<(usize, Vec<u8>)> = Vec::new();
     for n in 1..=3usize {
@@ -587,6 +691,24 @@ fn main() {
         }
     });
     ctx.set("big_graph_cases", json!(bigs.len()));
+    // 16-bit boundary probes: chains and stars on 2^16 +- 1 nodes
+    let mut huge = Vec::new();
+    for n in [65535usize, 65536, 65537] {
+        for kind in 0..HUGE_KINDS.len() {
+            huge.push((kind, n));
+        }
+    }
+    huge.par_iter().for_each(|&(kind, n)| {
+        let case = json!({"sys":"hugegraph","kind":kind,"shape":HUGE_KINDS[kind],"n":n});
+        let _guard_scope = guard::scoped(&case.to_string());
+        evals.fetch_add(1, Relaxed);
+        calls.fetch_add(2, Relaxed);
+        match catch(|| huge_graph_case(kind, n)) {
+            Ok(None) => ctx.observe(common::fnv_str(&case.to_string())),
+            Ok(Some((k, m))) => ctx.violation(&k, case, m, Some(&|| huge_graph_case(kind, n).map(|e| e.1))),
+            Err(p) => ctx.violation("graph.panic", case, format!("{} on {n} nodes: panicked: {p}", HUGE_KINDS[kind]), None),
+        }
+    });
     // scale probes: buffer counts per node
     let counts = [0usize, 1, 2, 255, 256, 257, 1000];
     for &a in &counts {
